@@ -192,15 +192,31 @@ def run_one(params: dict, chooser, deviations=True) -> dict:
     ERRORS.records.clear()
     kind = params['kind']
     horizon = {'out': 90.0, 'in': 140.0, 'server': 700.0, 'netdisc': 90.0}[kind]
+    if params.get('auto_reconnect'):
+        horizon = 45.0        # the watchdog ticks twice a second: keep the executions short
     world = World(chooser=chooser, horizon=horizon, deviations=False, slowcpu=True)
     try:
         net = SimNet(world, losable=False)
         install_virtual_time(world)
         server = ScriptedServer(net)
-        settings = make_settings(_copy=False, network={'peer': {'connect_mode': 'fallback'}})
+        netcfg = {'peer': {'connect_mode': 'fallback'}}
+        if params.get('auto_reconnect'):
+            # the library's own watchdog reconnects, after a delay that is shorter than a slow close takes
+            netcfg['server'] = {'reconnect': {'auto': True, 'timeout': params['auto_reconnect']}}
+        settings = make_settings(_copy=False, network=netcfg)
         bus = EventBus()
         network = Network(settings, bus)
         obs = SeqObserver(world, bus)
+        if params.get('slow_listener'):
+            # a listener of the application that takes its time when a connection is reported closed
+            from aioslsk.events import ConnectionStateChangedEvent as _CSE
+
+            async def slow_closed_listener(event):
+                if event.state == ConnectionState.CLOSED and isinstance(event.connection, PeerConnection):
+                    await asyncio.sleep(0)
+                    await asyncio.sleep(float(params['slow_listener']))
+            world.keep.append(slow_closed_listener)
+            bus.register(_CSE, slow_closed_listener)
         checker = Checker(world, net, network, obs)
         wire_after_close = []
         typ = params.get('typ', 'P')
@@ -494,11 +510,13 @@ def run_one(params: dict, chooser, deviations=True) -> dict:
                 async def disc():
                     await network.disconnect_server()
                 world.op('u', 'disconnect_server', disc)
-            elif ending == 'wstall':
+            elif ending in ('wstall', 'wstall-slowclose'):
                 async def act():
                     t = _lib_transport(network.server_connection)
                     if t is not None:
                         t.get_protocol().pause_writing()
+                        if ending == 'wstall-slowclose':
+                            t.slow_close = True       # the server stopped reading: the close cannot flush either
                         await network.server_connection.send_message(Ping.Request())
                 world.op('u', 'wstall', act)
             if params.get('reconnect'):
@@ -547,16 +565,22 @@ def scenarios(tier: str):
                 out.append({'kind': 'in', 'first': first, 'obf': obf, 'ending': ending})
         for first in ('pierce-unknown', 'undecodable', 'non-init', 'eof', 'reset', 'partial-eof', 'silence'):
             out.append({'kind': 'in', 'first': first, 'obf': obf})
+        # a listener that suspends while the connection is reported closed
+        for ending in ('eof', 'disc1', 'disc-cancel', 'reset'):
+            out.append({'kind': 'in', 'first': 'P', 'obf': obf, 'ending': ending, 'slow_listener': 1.0})
+            out.append({'kind': 'out', 'typ': 'P', 'obf': obf, 'connect': 'ok', 'ending': ending, 'slow_listener': 1.0})
     for outcome in ('ok', 'refuse', 'hang'):
         for typ in ('P', 'F'):
             for est in (False, True, 'silent'):
                 out.append({'kind': 'netdisc', 'connect': outcome, 'typ': typ, 'established': est})
             out.append({'kind': 'netdisc', 'connect': outcome, 'typ': typ, 'established': False, 'user_call': True})
     for outcome in ('ok', 'refuse', 'hang'):
-        endings = ['disc1', 'eof', 'reset', 'rtimeout', 'wstall'] if outcome == 'ok' else ['none']
+        endings = ['disc1', 'eof', 'reset', 'rtimeout', 'wstall', 'wstall-slowclose'] if outcome == 'ok' else ['none']
         for ending in endings:
             for reconnect in (False, True):
                 out.append({'kind': 'server', 'connect': outcome, 'ending': ending, 'reconnect': reconnect})
+            if ending in ('reset', 'wstall', 'wstall-slowclose'):
+                out.append({'kind': 'server', 'connect': outcome, 'ending': ending, 'reconnect': False, 'auto_reconnect': 1})
     return out
 
 
@@ -566,6 +590,8 @@ def weight(params, tier):
 
 def run_scenario(params: dict, tier: str) -> dict:
     bound = 2 if tier == 'quick' else 3
+    if params.get('auto_reconnect'):
+        bound -= 1
     res = explore(lambda ch: run_one(params, ch), bound=bound, max_exec=300000)
     return {'executions': res.executions, 'violations': res.violations, 'states': res.states,
             'transitions': res.transitions, 'outcomes': list(res.outcomes), 'nontrivial': list(res.nontrivial),
